@@ -274,7 +274,10 @@ def stitch_drops_only_filtered(ck, w, rule_id):
     pre = events_of(lib, sn, "apath::Apath::is_prefix_of")
     exc = events_of(lib, sn, "excludes::Exclude::matches")
     rets = [bb for bb, j, s in rules.agg_sites(sn, "std::option::Option", "Some") if s["pl"]["l"] == 0]
-    if not nx or not pre or not exc or not rets:
+    retain = None
+    if not pre:
+        retain = stitch_retain_idiom(w)
+    if not nx or (not pre and retain is None) or not exc or not rets:
         ck.fail(o, sn.name, "filter shape changed", "next=%d is_prefix_of=%d matches=%d returns=%d" % (len(nx), len(pre), len(exc), len(rets)))
         return
     some_targets = set()
@@ -298,7 +301,7 @@ def stitch_drops_only_filtered(ck, w, rule_id):
         ck.fail(o, sn.name, "entries dropped by something other than the subtree / exclusion tests",
                 "an entry can be skipped (or the listing ended) without is_prefix_of==false or matches==true")
     else:
-        ck.ok(o, sites=[pre[0].site(), exc[0].site()])
+        ck.ok(o, "subtree filter applied per hunk with retain" if retain is not None else None, sites=[(pre[0] if pre else retain).site(), exc[0].site()])
 
 
 def _true_implies_call(crate, body, short_name):
@@ -449,8 +452,6 @@ def hunk_listing_complete(ck, w, rid):
         for e in b.events:
             if e.bb in b.live and re.search(r"transport::DirEntry::(len|is_empty)$|transport::Transport::metadata$", e.name):
                 problems.append(("hunk files are selected by their length", "%s called in %s" % (e.name, b.name), e.site()))
-    if n_sel < 2:
-        problems.append(("selection idiom not recognised", "expected the kind / numeric-name selections, found %d filter(s)" % n_sel, None))
     if problems:
         seen = set()
         for k, m, site in problems:
@@ -460,3 +461,95 @@ def hunk_listing_complete(ck, w, rid):
             ck.fail(o, "index::IndexRead::hunks_available", k, m, site)
     else:
         ck.ok(o, "%d selection(s) by kind / name" % n_sel, instances=n_sel)
+
+
+def stitch_retain_idiom(w):
+    """Alternative to the per-entry subtree test in Stitch::next: the freshly read hunk is filtered once with
+    `hunk.retain(|e| self.subtree.is_prefix_of(&e.apath))` before it is installed as the buffered entries.
+    Returns the retain event if that idiom is present and well-formed, else None."""
+    lib = w.lib
+    sn = w.body("index::stitch::Stitch::next")
+    rets = [e for e in sn.events if e.bb in sn.live and re.search(r"Vec::<T, A>::retain(_mut)?$", e.name)]
+    srcs = [e for e in sn.events if e.bb in sn.live and e.callee == rules.POLL and
+            (e.resolved or "").startswith("index::IndexHunkIter::") and (e.resolved or "").split("::")[2] in ("try_next", "next")]
+    for r in rets:
+        recv = flow.origin_calls(flow.origins_x(lib, sn, r.args[0]))
+        if not any(c.startswith("index::IndexHunkIter::") for c in recv):
+            continue
+        # the closure
+        cb = None
+        for oo in flow.origins(sn, r.args[1]):
+            if oo[0] == "agg" and oo[1] in lib.bodies:
+                cb = lib.bodies[oo[1]]
+        if cb is None:
+            continue
+        ip = [e for e in cb.events if e.bb in cb.live and e.name == "apath::Apath::is_prefix_of"]
+        if len(ip) != 1:
+            continue
+        ret = flow.origins_x(lib, cb, 0)
+        if "apath::Apath::is_prefix_of" not in flow.origin_calls(ret) or any(x[0] == "arith" for x in ret):
+            continue
+        # no negation of the result
+        neg = False
+        for bb, j, st in cb.all_assigns():
+            if st["rv"]["rk"] == "unop" and st["rv"]["op"] == "Not":
+                neg = True
+        if neg:
+            continue
+        recv_o = flow.origins_x(lib, cb, ip[0].args[0])
+        arg_o = flow.origins_x(lib, cb, ip[0].args[1])
+        if not any(x[0] in ("param", "upvar") and "subtree" in x[2] for x in recv_o):
+            continue
+        if not any(x[0] == "param" and "apath" in x[2] for x in arg_o) or any(x[0] in ("param", "upvar") and "subtree" in x[2] for x in arg_o):
+            continue
+        # every hunk that gets installed went through the retain
+        installs = [bb for bb, j, st in sn.all_assigns() if st["pl"]["p"] and any(
+            "buffered_entries" == sn.local_names.get(st["pl"]["l"]) for _ in [0])]
+        if not installs:
+            installs = [bb for bb, j, st in sn.all_assigns() if st["pl"]["p"] == ["*"] and "Peekable" in (sn.locals[st["pl"]["l"]] or "")]
+        ok_ = bool(installs) and bool(srcs)
+        for ib in installs:
+            for s_ in srcs:
+                if ib in sn.reachable(s_.bb, removed_nodes={r.bb}) and s_.bb != ib:
+                    # reachable around the retain within the same iteration? exclude paths that pass the source again
+                    if ib in sn.reachable(s_.bb, removed_nodes={r.bb} | {x.bb for x in srcs if x is not s_}):
+                        # the only way round must pass the source again (next iteration)
+                        around = sn.reachable(s_.target if s_.target is not None else s_.bb, removed_nodes={r.bb, s_.bb})
+                        if ib in around:
+                            ok_ = False
+        if ok_:
+            return r
+    return None
+
+
+def list_blocks_present_set(ck, w, rid, rid0):
+    """list_blocks: a listed file enters the present set unless its length is unknown or ZERO - the only length
+    that is excluded. (C03: an empty leftover must not count as a stored block; C05: every real block file, however
+    small, must be visible to the collector.)"""
+    lib = w.lib
+    lb = w.body("blockdir::list_blocks")
+    o = ck.ob(rid, "list_blocks: a listed file counts as present only if its length is known and non-zero")
+    ins = [e for e in lb.events if e.bb in lb.live and re.search(r"HashSet::<T, S, A>::insert$", e.name)]
+    tests = [e for e in lb.events if e.bb in lb.live and re.search(r"Option::<T>::is_none_or$", e.name)]
+    ok_guard = rules.guarded_by_bool(ck, o, lb, tests, False, ins, "len.is_none_or(==0)", "blocks.insert") if ins else \
+        ck.fail(o, lb.name, "no insert", "list_blocks no longer inserts listed blocks")
+    if ok_guard:
+        # the closure must compare with zero
+        oz = ck.ob(rid0, "the emptiness predicate compares the length with 0")
+        found = False
+        for e in tests:
+            for a in e.args[1:]:
+                for oo in flow.origins(lb, a):
+                    if oo[0] == "agg" and oo[1] in lib.bodies:
+                        cb = lib.bodies[oo[1]]
+                        for bb, j, s in cb.all_assigns():
+                            rv = s["rv"]
+                            if rv["rk"] == "binop" and rv["op"] == "Eq":
+                                for op in rv["ops"]:
+                                    if op.get("k") == "const" and op.get("int") == "0":
+                                        found = True
+        if found:
+            ck.ok(oz)
+        else:
+            ck.fail(oz, lb.name, "zero-length test changed", "is_none_or closure is not `len == 0`")
+
